@@ -214,6 +214,7 @@ def check_C17(rep, known):
     engine.process_results(rep, [rec], [{'results': splinem.optima(), 'error': None}], [r'C17\.'], known)
     engine.process_results(rep, [{'sc': {'kind': 'signal-order'}}], [{'results': splinem.signals_order(), 'error': None}], [r'C17\.'], known)
     engine.process_results(rep, [{'sc': {'kind': 'spline-component-constraint'}}], [{'results': splinem.component_constraint(), 'error': None}], [r'C17\.'], known)
+    engine.process_results(rep, [{'sc': {'kind': 'spline-signal-bounds'}}], [{'results': splinem.signal_bounds(), 'error': None}], [r'C17\.'], known)
 
 
 def trace_job(rep, known):
